@@ -116,7 +116,7 @@ ConnAck ==
   /\ IF Ev.code = 0
      THEN /\ conn[Ev.c].auth = "ok" /\ conn[Ev.c].reg                         \* accepted only after the session exists
           /\ conn' = Upd(conn, Ev.c, [conn[Ev.c] EXCEPT !.phase = "live", !.connack = 0])
-     ELSE /\ conn[Ev.c].auth = "refused" /\ ~conn[Ev.c].reg /\ Ev.code = 5    \* refusal: nothing was created
+     ELSE /\ conn[Ev.c].auth = "refused" /\ ~conn[Ev.c].reg /\ Ev.code # 0    \* refusal (any refusal code): nothing was created
           /\ conn' = Upd(conn, Ev.c, [conn[Ev.c] EXCEPT !.phase = "refused", !.connack = Ev.code])
   /\ UNCHANGED <<vnow, subs, msgs, logs, acked, inq2, outf, deliv, need, owed, ret, tags, sweeps, dead, table, clears, faults, reach>>
 
@@ -226,7 +226,8 @@ LogAppend ==
   /\ Ev.op = "log.append" /\ Ev.n \in Dom(logs)
   /\ IF Ev.p = ""
      THEN /\ <<Ev.mount, Ev.t>> \in clears
-          /\ logs' = IF Ev.ok THEN Upd(logs, Ev.n, Append(logs[Ev.n], "")) ELSE logs /\ UNCHANGED msgs
+          /\ logs' = (IF Ev.ok THEN Upd(logs, Ev.n, Append(logs[Ev.n], "")) ELSE logs)
+          /\ UNCHANGED msgs
      ELSE /\ Ev.p \in Dom(msgs)
           /\ LET m == msgs[Ev.p] IN
              /\ m.released
@@ -304,10 +305,14 @@ SweepRet ==
 
 \* ------------------------------------------------------------------ deliveries to subscribers
 DeliverEmpty ==
-  /\ Ev.op = "srv.write" /\ Ev.kind = "PUBLISH" /\ Ev.p = "" /\ Registered(Ev.c) /\ Ev.q = 0
+  /\ Ev.op = "srv.write" /\ Ev.kind = "PUBLISH" /\ Ev.p = "" /\ Registered(Ev.c)
   /\ <<conn[Ev.c].mount, Ev.t>> \in clears /\ ~Ev.r
   /\ \E x \in subs : x.c = Ev.c /\ T!Matches(x.f, Ev.t)
-  /\ UNCHANGED <<vnow, conn, subs, msgs, logs, acked, inq2, outf, deliv, need, owed, ret, tags, sweeps, dead, table, clears, faults, reach>>
+  /\ IF Ev.q > 0
+     THEN /\ <<Ev.c, Ev.id>> \in Dom(outf)
+          /\ outf' = Upd(outf, <<Ev.c, Ev.id>>, [outf[<<Ev.c, Ev.id>>] EXCEPT !.p = "(empty)", !.due = FALSE])
+     ELSE UNCHANGED outf
+  /\ UNCHANGED <<vnow, conn, subs, msgs, logs, acked, inq2, deliv, need, owed, ret, tags, sweeps, dead, table, clears, faults, reach>>
 DeliverPublish ==
   /\ Ev.op = "srv.write" /\ Ev.kind = "PUBLISH" /\ Ev.c \in Dom(conn) /\ Ev.p # ""
   /\ Registered(Ev.c)                                                       \* nothing is written to an ended session
